@@ -5,6 +5,7 @@ import (
 	"time"
 
 	"github.com/yandex/pandora/core"
+	"github.com/yandex/pandora/lib/verifhook"
 	"go.uber.org/atomic"
 )
 
@@ -78,6 +79,7 @@ func (s *compositeSchedule) Next() (tx time.Time, ok bool) {
 	}
 	// Current schedule is finished, but some are left.
 	// Let's start next, with got finish time from previous!
+	verifhook.At("composite.Next:before-lock")
 	s.rwMu.Lock()
 	schedsLeftNow := len(s.scheds)
 	somebodyStartedNextBeforeUs := schedsLeftNow < schedsLeft
@@ -122,6 +124,7 @@ func (s *compositeSchedule) Left() int {
 		}
 		// leftAfter was unknown, at schedule create moment.
 		// But now, it can be finished. Let's shift, and try one more time.
+		verifhook.At("composite.Left:before-lock")
 		s.rwMu.Lock()
 		shedsLeftNow := len(s.scheds)
 		if shedsLeftNow == schedsLeft {
